@@ -21,6 +21,8 @@ def small_coeff(rng):
 def gen_scales(rng, depth=None, daqmx_ids=None):
     """A list of scale descriptors; the last one is the output."""
     n = depth or rng.randint(1, 4)
+    if depth is None and rng.random() < 0.04:
+        n = rng.randint(10, 13)       # scale indexes with two digits (calibration on top of calibration)
     scales = []
     first = 0
     if daqmx_ids:
